@@ -500,6 +500,20 @@ func c02TokenLen(e *Env, sums map[string]core.Summary) {
 			}
 			// the token slice: data[:tokenLen]
 			n++
+			if s.Parent() != f {
+				// sliced inside a helper analysed as part of the decoder: the bound is what every call site establishes for the argument
+				hv := core.Resolve(s.High)
+				sites := core.SitesOf(s.Parent())
+				if len(sites) == 0 {
+					ok = false
+				}
+				for _, site := range sites {
+					if site.Parent() != f || !b.ValueAtMost(hv, core.Term{K: 8}, site) {
+						ok = false
+					}
+				}
+				return
+			}
 			if !b.ValueAtMost(s.High, core.Term{K: 8}, in) {
 				ok = false
 			}
@@ -704,34 +718,79 @@ func c02Registry(e *Env) {
 		w := globalWriters(e, "message", t.name)
 		e.R.Check(len(w) == 0, rule, "message."+t.name+":single-writer", e.P.Pos(pos), "only the initialiser writes the table", "modified at run time by "+strings.Join(w, ", "))
 	}
-	// Option.Unmarshal skips exactly on len ∉ [Min,Max]
+	// Option.Unmarshal skips exactly on len ∉ [Min,Max] (or unknown format) of a registered option – decided on the truth table of
+	// the function over the facts {registered, unknown format, len < MinLen, len > MaxLen}, whatever shape the tests are written in
 	if f := e.fn(rule, "message.Option.Unmarshal"); f != nil {
-		var sawMin, sawMax bool
-		core.Instrs(f, func(in ssa.Instruction) {
-			b, ok := in.(*ssa.BinOp)
-			if !ok {
-				return
+		fieldOf := func(v ssa.Value) string {
+			v = core.Unwrap(v)
+			if fv, ok := v.(*ssa.Field); ok {
+				_, fl, _ := core.FieldOf(fv)
+				return fl
 			}
-			fieldOf := func(v ssa.Value) string {
-				if fv, ok := v.(*ssa.Field); ok {
-					_, fl, _ := core.FieldOf(fv)
-					return fl
+			if ld, ok := v.(*ssa.UnOp); ok {
+				_, fl, _ := core.FieldOf(ld.X)
+				return fl
+			}
+			return ""
+		}
+		bf := &core.BoolFn{Fn: f,
+			AtomOf: func(v ssa.Value) (string, bool, bool) {
+				if ex, ok := v.(*ssa.Extract); ok && ex.Index == 1 {
+					if _, isL := ex.Tuple.(*ssa.Lookup); isL {
+						return "registered", false, true
+					}
 				}
-				if ld, ok := v.(*ssa.UnOp); ok {
-					_, fl, _ := core.FieldOf(ld.X)
-					return fl
+				c, ok := core.AsCmp(v)
+				if !ok {
+					return "", false, false
+				}
+				x, y, op := c.X, c.Y, c.Op
+				if fieldOf(x) != "" && fieldOf(y) == "" {
+					x, y, op = y, x, core.SwapOp(op)
+				}
+				switch fieldOf(y) {
+				case "MinLen":
+					switch op {
+					case token.LSS:
+						return "below-min", false, true
+					case token.GEQ:
+						return "below-min", true, true
+					}
+				case "MaxLen":
+					switch op {
+					case token.GTR:
+						return "above-max", false, true
+					case token.LEQ:
+						return "above-max", true, true
+					}
+				}
+				if fieldOf(x) == "ValueFormat" || fieldOf(y) == "ValueFormat" {
+					if k, isK := core.ConstInt(y); isK && k == 0 || func() bool { k2, isK2 := core.ConstInt(x); return isK2 && k2 == 0 }() {
+						_ = k
+						switch op {
+						case token.EQL:
+							return "unknown-format", false, true
+						case token.NEQ:
+							return "unknown-format", true, true
+						}
+					}
+				}
+				return "", false, false
+			},
+			Event: func(in ssa.Instruction) string {
+				if st, ok := in.(*ssa.Store); ok {
+					if _, fl, isF := core.FieldOf(st.Addr); isF && fl == "ID" {
+						return "kept"
+					}
 				}
 				return ""
-			}
-			// dataLen < def.MinLen  /  dataLen > def.MaxLen (either orientation)
-			switch {
-			case b.Op == token.LSS && fieldOf(b.Y) == "MinLen", b.Op == token.GTR && fieldOf(b.X) == "MinLen":
-				sawMin = true
-			case b.Op == token.GTR && fieldOf(b.Y) == "MaxLen", b.Op == token.LSS && fieldOf(b.X) == "MaxLen":
-				sawMax = true
-			}
-		})
-		e.R.Check(sawMin && sawMax, rule, "message.Option.Unmarshal:length-window", e.fpos(f), "skips when len < MinLen or len > MaxLen (strict comparisons: the bounds themselves are legal)", "the legal-length window is no longer [MinLen, MaxLen] with both bounds inclusive")
+			}}
+		checkTruth(e, rule, "message.Option.Unmarshal:length-window", bf,
+			func(r core.BoolRow) bool { return r.Events["kept"] },
+			func(a map[string]bool) bool {
+				return !(a["registered"] && (a["unknown-format"] || a["below-min"] || a["above-max"]))
+			},
+			"an option is skipped ⇔ it is registered ∧ (format unknown ∨ len < MinLen ∨ len > MaxLen): the bounds themselves are legal", "the legal-length window is no longer [MinLen, MaxLen] with both bounds inclusive")
 	}
 }
 
